@@ -71,6 +71,19 @@ def rest_attrs(a):
     return d
 
 
+class Changes(object):
+    """how many route changes an operation makes per family (a set-like 'add' that counts)"""
+
+    def __init__(self):
+        self.n = {}
+
+    def add(self, fam):
+        self.n[fam] = self.n.get(fam, 0) + 1
+
+    def __contains__(self, fam):
+        return self.n.get(fam, 0) > 0
+
+
 class Run(object):
     def __init__(self):
         self.sim = Sim(rib=True, hold_time=0, idle_hold_time=1, afi_safi=('ipv4', 'flowspec', 'vpnv4'))
@@ -95,7 +108,7 @@ class Run(object):
         k = op[0]
         out = []
         before = {a: dict(self.versions(a) or {}) for a in ('received', 'send')}
-        changed = {'received': set(), 'send': set()}
+        changed = {'received': Changes(), 'send': Changes()}
         nerr = len(sim.errors)
         if k == 'drop':
             how = op[1] if len(op) > 1 else 'close'
@@ -319,6 +332,11 @@ class Run(object):
                 elif (a_ > b) != (fam in changed[act]):
                     out.append(('version:%s:%s:%s:%s' % (act, fam, 'missed' if fam in changed[act] else 'spurious', k),
                                 '%s %s version %s -> %s after %r, table changed: %s' % (act, fam, b, a_, op, fam in changed[act])))
+                elif a_ - b > changed[act].n.get(fam, 0):
+                    # every increase belongs to a change: more increases than routes changed means some happened "otherwise"
+                    out.append(('version:%s:%s:more-increases-than-changes:%s' % (act, fam, k),
+                                '%s %s version %s -> %s after %r, but only %d route change(s)'
+                                % (act, fam, b, a_, op, changed[act].n.get(fam, 0))))
         return out
 
 
@@ -346,6 +364,9 @@ idxs = st.lists(st.integers(0, len(PREFIXES) - 1), min_size=1, max_size=3, uniqu
 op_strategy = st.one_of(
     st.tuples(st.just('ann'), idxs, st.integers(0, 4), side).map(list),
     st.tuples(st.just('wd'), idxs, side).map(list),
+    # the same prefix listed twice in one UPDATE's withdrawn routes / NLRI
+    st.tuples(st.just('wd'), st.integers(0, len(PREFIXES) - 1), side).map(lambda t: ['wd', [t[1], t[1]], t[2]]),
+    st.tuples(st.just('ann'), st.integers(0, len(PREFIXES) - 1), st.integers(0, 4), side).map(lambda t: ['ann', [t[1], t[1]], t[2], t[3]]),
     st.tuples(st.just('mixed'), idxs, st.integers(0, 4), idxs, side).map(
         lambda t: ['mixed', t[1], t[2], [i for i in t[3] if i not in t[1]] or [(t[1][0] + 1) % len(PREFIXES)], t[4]]),
     st.tuples(st.just('fs-ann'), st.integers(0, 2), side).map(list),
@@ -372,7 +393,7 @@ def shards(tier):
 def run_shard(spec, seed, col, tier):
     if spec['kind'] == 'exh':
         alpha = [['ann', [1], 0, 'peer'], ['ann', [1], 1, 'peer'], ['ann', [1], 3, 'peer'], ['ann', [1], 4, 'rest'], ['ann', [1], 3, 'rest'], ['ann', [2], 0, 'peer'], ['ann', [1, 2], 1, 'peer'],
-                 ['wd', [1], 'peer'], ['wd', [2], 'peer'], ['mixed', [1], 0, [2], 'peer'], ['ann', [1], 0, 'rest'], ['wd', [1], 'rest'],
+                 ['wd', [1], 'peer'], ['wd', [2], 'peer'], ['wd', [1, 1], 'peer'], ['mixed', [1], 0, [2], 'peer'], ['ann', [1], 0, 'rest'], ['wd', [1], 'rest'],
                  ['drop'], ['drop', 'notif'], ['vpn-ann2', 0, 16, 1, 17, 'peer'], ['vpn-ann', 0, 16, 'peer'], ['vpn-ann', 0, 17, 'peer'], ['vpn-wd', 0, 'peer'],
                  ['fs-ann2', 0, 1, 'peer'], ['fs-wd', 0, 'peer'], ['xfam', [1], 'fs-wd', 0, 16], ['xfam', [2], 'vpn-ann', 0, 17]]
         seqs = list(itertools.product(range(len(alpha)), repeat=spec['len']))[spec['part']::spec['parts']]
